@@ -6,7 +6,7 @@
    acquisition joins the ring at offset 0 of the current lap: the model admits that behaviour (mon_fresh = false) and the
    check records it as a known finding. *)
 From Coq Require Import List Bool Arith NArith.
-From Pipe Require Import PipeModel PipeFacts PipeInvDefs PipeStep PipeSysProps PipeExamples.
+From Pipe Require Import PipeModel PipeFacts PipeInvDefs PipeStep PipeSysProps PipeRested PipeExamples.
 Import ListNotations.
 
 (* within an acquisition the frames the client has consumed are a run of consecutive frames of THIS acquisition's camera
@@ -31,6 +31,19 @@ Theorem C06_flushed_at_return : forall y g y' i,
   let s := stream_of y' i in valid s = true -> mon_reg s = true -> mon_cur s = length (log s) /\ mon_map s = None.
 Proof. exact monitor_flushed_at_return. Qed.
 Print Assumptions C06_flushed_at_return.
+
+(* ... and it is still drained -- hence fresh, `mon_fresh`, so that C06_consecutive_fresh applies -- when the storage of the next
+   acquisition is started, whatever the client does in between (any accepted trace tr that does not itself start this stream's
+   storage: map / unmap calls, configure, failed starts, further stops and aborts, the other stream's acquisitions): the first
+   frame the client sees in the next acquisition is that acquisition's own *)
+Theorem C06_fresh_in_next_acquisition : forall y g y1 i tr y2 n y3,
+  reachable y -> (g = GStopRet \/ g = GAbortRet) -> step y (EvG g) = Some y1 ->
+  valid (stream_of y1 i) = true -> mon_reg (stream_of y1 i) = true ->
+  accepts y1 tr = Some y2 -> forallb (fun ev => negb (is_sto_start_of i ev)) tr = true ->
+  step y2 (EvS i ACli (DStoStart n true)) = Some y3 ->
+  mon_fresh (stream_of y3 i) = true.
+Proof. exact fresh_in_next_acquisition. Qed.
+Print Assumptions C06_fresh_in_next_acquisition.
 
 (* the map call keeps succeeding: the model has no transition in which acquire_map_read reports an error *)
 Theorem C06_map_never_fails : forall s ok s', step_stream s ACli (MonMapRet ok) = Some s' -> ok = true.
